@@ -21,6 +21,12 @@ Five kinds of observation (see harness/cmd/c11):
 * `locks`  — the regenerated lock-facts table itself: every access site guarded, classes consistent; the regenerated
              closure table: no function literal that assigns its captured variables is stored where another goroutine
              finds it; the regenerated hand-over words: no function touches a sample / an ammo after handing it on.
+* `ammo`   — ONE goroutine: n instances of a pool take turns (shoot and release the ammo held, acquire the next one) in
+             a given order, so that an instance keeps its ammo while the others go through whole passes of the ammo file;
+             per delivered ammo what it is when `Acquire` returns it, what it is when its instance shoots it, and what
+             the ammo of the same file position is on the first pass of a fresh one-instance pool; the units reachable from
+             the ammo the OTHER instances hold that a step (Acquire with the provider's middlewares, Shoot, Release)
+             changed, and the units two outstanding ammo have in common.
 * `isolate` — ONE goroutine: the variables each shot of an n-instance pool extracted from ITS responses (echoed to the
              target by the later steps of the scenario), against what the same shot extracts in a fresh pool where it is the
              only shot: a difference is a cross-instance effect, whatever the schedule.
@@ -33,6 +39,7 @@ import Pandora.Model.C11Sharing
 import Pandora.Model.C11Table
 import Pandora.Model.C11Own
 import Pandora.Model.C11Modifiers
+import Pandora.Model.C11Ammo
 import Pandora.Gen.Locks
 
 namespace Pandora.Spec.C11
@@ -53,6 +60,9 @@ inductive Share where
 structure PoolCfg where
   kind : String
   sharedClient : Bool
+  /-- the provider delivers the same decoded ammo again on every pass (`preload: true`, or an http/json file that is one
+  JSON array) -/
+  reuse : Bool := false
   deriving Repr
 
 def PoolCfg.http (c : PoolCfg) : Bool := c.kind ∈ ["uri", "uripost", "raw", "httpjson"]
@@ -138,6 +148,14 @@ def roBacked : List (String × String) := [
   ("preprocessor.PreparePreprocessor.Mapping(map)", "components/providers/scenario/grpc/preprocessor.PreparePreprocessor.Mapping"),
   ("preprocessor.PreparePreprocessor.iterator(*mp.NextIterator)", "components/providers/scenario/grpc/preprocessor.PreparePreprocessor.iterator"),
   ("vs.SourceStorage.sources(map)", "components/providers/scenario/vs.SourceStorage.sources")
+]
+
+/-- what two OUTSTANDING ammo of a pool may have in common (`mode=ammo`): with a provider that delivers the same decoded
+ammo again, the requests built from it share the value slices of the decoded header and the bytes of the body — the
+header MAP of a request is the request's own (`Model/C11Ammo.lean`, `Gen.Locks.ammoFlows`) -/
+def ammoInventory : List Entry := [
+  ⟨"bytes.Reader.s(slice)", .ro, fun c => c.http && c.reuse⟩,
+  ⟨"http.Request.Header{}(slice)", .ro, fun c => c.http && c.reuse⟩
 ]
 
 def classOf (label : String) : Option Share :=
@@ -385,13 +403,70 @@ def judgePkgVars (vs : List (String × String × List (String × String))) : Str
   | some v => s!"fail:unguarded-global:{v.1} ({v.2.1}) is written by {((v.2.2.filter fun w => !writerGuarded w).map (·.1)).headD ""} without protection"
   | none => "ok"
 
+/-! ### reference flows on the instance-facing side of the http provider (`Gen.Locks.ammoFlows`) -/
+
+/-- a regenerated row: (function, kind of reference, class of destination, destination, source) -/
+abbrev FlowRow := String × String × String × String × String
+
+/-- stores of a caller's reference that were reviewed: `EnrichRequestWithHeaders` enters the VALUE SLICES of the decoded
+header into the request's own map (`req.Header[key] = values`): requests built from one decoded ammo read the same
+slices and never write them (`Header.Add` appends to a slice without spare capacity, i.e. into a new array; `mode=ammo`
+snapshots the whole backing array around every step of another instance) -/
+def reviewedFlows : List FlowRow := [
+  ("components/providers/http/util.EnrichRequestWithHeaders", "slice", "store", "param0.Header[]", "param1[]")
+]
+
+/-- no map of the caller (the decoded ammo's header, the provider's configuration) is kept by what `Acquire` builds; a
+slice / pointer of the caller is stored — or returned: results of calls are taken as fresh by the rows of the callers —
+only where reviewed (handing one to a constructor or a library call is what the callee's own row, or the dynamic aliasing
+walk, accounts for) -/
+def flowOk (r : FlowRow) : Bool :=
+  r.2.1 != "map" && (r.2.2.1 != "store" && r.2.2.1 != "global" && r.2.2.1 != "chan" && r.2.2.1 != "return" || reviewedFlows.contains r)
+
+def judgeFlows (flows : List FlowRow) : String :=
+  match flows.find? (fun r => !flowOk r) with
+  | some r =>
+    if r.2.1 == "map" then s!"fail:aliased-map:{r.1} puts {r.2.2.2.2} (a map of its caller) into {r.2.2.1}:{r.2.2.2.1}: the requests built from one decoded ammo share a map that middlewares write"
+    else s!"fail:aliased-ref:{r.1} stores {r.2.2.2.2} (a {r.2.1} of its caller) in {r.2.2.2.1}"
+  | none => "ok"
+
+/-- a regenerated write: (function, origin of the object written, destination, how) -/
+abbrev WriteRow := String × String × String × String
+
+/-- `Acquire` and everything it calls run in the instances' goroutines on objects all instances use (the provider, its
+middlewares, a decoded ammo that is delivered again): they may write only what every call chain hands them as something
+the caller made itself — the request being built — or an atomic value -/
+def writeOk (w : WriteRow) : Bool := w.2.1 == "param" || w.2.2.2 == "atomic"
+
+def judgeWrites (ws : List WriteRow) : String :=
+  match ws.find? (fun w => !writeOk w) with
+  | some w => s!"fail:acquire-writes-shared:{w.1} writes {w.2.2.1} ({w.2.2.2}), which is part of {if w.2.1 == "recv" then "its receiver" else "a receiver up the call chain"}: an object every instance's Acquire uses"
+  | none => "ok"
+
+/-- memory of a pooled object that is put back by the function that hands the memory out (`Gen.Locks.pooledEscapes`):
+as a program of the ownership model the function takes the object (`Get`), gives its memory to the caller and gives it
+to the pool as well — a second `give` of what it no longer holds -/
+def escapeOps : List OOp := [.take 0, .own ⟨0, true, 0⟩, .give 0, .give 0]
+
+def judgeEscapes (es : List (String × String × String)) : String :=
+  match es with
+  | [] => "ok"
+  | (f, v, e) :: _ => s!"fail:pooled-escape:{f} puts {v} back into its sync.Pool and hands its memory out all the same ({e})"
+
 /-- everything `gen -area locks` re-extracted from the source of the tree under check -/
 def judgeStatic (tbl : List C11LockRow) (cs : List C11Closure) (sites : List (String × String × String))
-    (vars : List (String × String × List (String × String))) : String :=
+    (vars : List (String × String × List (String × String))) (flows : List FlowRow := [])
+    (escapes : List (String × String × String) := []) (writes : List WriteRow := []) : String :=
   match judgeTable tbl with
   | "ok" => (match judgeClosures cs with
     | "ok" => (match judgeSites sites with
-      | "ok" => judgePkgVars vars
+      | "ok" => (match judgePkgVars vars with
+        | "ok" => (match judgeFlows flows with
+          | "ok" => (match judgeEscapes escapes with
+            | "ok" => judgeWrites writes
+            | v => v)
+          | v => v)
+        | v => v)
       | v => v)
     | v => v)
   | v => v
@@ -414,6 +489,56 @@ def judgeIsolate (o : IsolateObs) : String :=
       match ((echoFields a).zip (echoFields b)).find? (fun (x, y) => x != y) with
       | some (x, y) => s!"fail:cross-instance:shot {j} sent [{x}] after the other instances' shots, [{y}] when it is the only shot"
       | none => s!"fail:cross-instance:shot {j} sent something else after the other instances' shots than alone"
+
+/-! ### the provider's side: ammo held by one instance while the others acquire, shoot and release (mode=ammo) -/
+
+structure AmmoObs where
+  /-- per delivery (in order): content when `Acquire` returned it / when its instance shot it / of the same file position
+  on the first pass of a fresh one-instance pool -/
+  acq : List String
+  shot : List String
+  solo : List String
+  /-- units reachable from the ammo other instances held that changed during a step of an instance -/
+  altered : List String
+  /-- units two outstanding ammo had in common -/
+  shared : List String
+
+/-- first position where two lists differ -/
+def firstDiff (a b : List String) : Option (Nat × String × String) :=
+  ((a.zip b).zipIdx.find? fun ((x, y), _) => x != y).map fun ((x, y), j) => (j, x, y)
+
+/-- a unit instances may write: classed `sync` in the inventory (the `[next]` counters and the `[rand]` source of a
+scenario's data-source iterator), or an atomic value -/
+def syncLabel (l : String) : Bool :=
+  match classOf l with
+  | some (.sync _) => true
+  | _ => (l.splitOn "(*atomic.").length == 2
+
+def judgeAmmo (o : AmmoObs) : String :=
+  -- a write to memory another instance's ammo consists of (schedule-independent witness), unless synchronised
+  match o.altered.find? (fun l => !syncLabel l) with
+  | some l => s!"fail:shared-write:{l} of an ammo held by one instance changed during a step of another instance"
+  | none =>
+    if o.acq.length != o.shot.length || o.acq.length != o.solo.length then
+      s!"fail:crash:{o.acq.length} deliveries, {o.shot.length} shot, {o.solo.length} reference"
+    else match firstDiff o.acq o.shot with
+    | some (j, x, y) => s!"fail:ammo-altered:delivery {j} was [{x}] when acquired and [{y}] when its instance shot it"
+    | none => match firstDiff o.shot o.solo with
+      | some (j, x, y) => s!"fail:cross-instance:delivery {j} is [{x}] after the other instances' steps, [{y}] on the first pass of a fresh pool"
+      | none => "ok"
+
+/-- labels two outstanding ammo may share in this configuration; anything else is outside the model -/
+def ammoSharedAllowed (c : PoolCfg) : List String := (ammoInventory.filter (·.on c)).map (·.label)
+
+/-! ### results handed out by the shared components of a scenario definition (mode=retain) -/
+
+/-- `drift` entries are `j@i`: the result of call `j` was no longer what it was when call `i` returned -/
+def judgeRetain (drift : List String) : String :=
+  match drift with
+  | [] => "ok"
+  | d :: _ => match d.splitOn "@" with
+    | [j, i] => s!"fail:result-altered:what call {j} returned to its instance changed during call {i} (made for another request)"
+    | _ => s!"fail:result-altered:{d}"
 
 /-- `c11lib.Enc`: a single token -/
 def hexDigit (n : Nat) : Char := if n < 10 then Char.ofNat (48 + n) else Char.ofNat (55 + n)
